@@ -116,6 +116,25 @@ Proof.
   eapply perm_trans; [apply sort_perm|]. eapply perm_trans; [exact Hp|]. apply Permutation_sym, sort_perm.
 Qed.
 
+Lemma sfx_multi l : is_multi l = true -> sfx_of l = sort l.
+Proof. destruct l as [|a [|b l]]; cbn [is_multi]; try discriminate. reflexivity. Qed.
+
+Lemma perm_sfx_eq l l' : Permutation l l' -> sfx_of l = sfx_of l'.
+Proof.
+  intros Hp. destruct l as [|a [|b l]].
+  - apply Permutation_nil in Hp. subst. reflexivity.
+  - apply Permutation_length_1_inv in Hp. subst. reflexivity.
+  - pose proof (Permutation_length Hp) as Hl. destruct l' as [|a' [|b' l']]; try discriminate.
+    unfold sfx_of. apply perm_sort_eq, Hp.
+Qed.
+
+(* no two different named senders share their first 32 bytes *)
+Definition inj_named (froms : list addr) : Prop :=
+  forall a b, In a froms -> In b froms -> trunc a = trunc b -> a = b.
+
+Lemma key_sfx_multi x : is_multi x = true -> key_sfx x = x.
+Proof. destruct x as [|a [|b l]]; cbn [is_multi]; try discriminate. reflexivity. Qed.
+
 Lemma partition_perm (f : addr -> bool) l :
   Permutation (filter f l ++ filter (fun a => negb (f a)) l) l.
 Proof.
@@ -217,7 +236,7 @@ Qed.
 
 (** * Well-formed record stores *)
 Definition rec_ok (kr : rkey * qrec) : Prop :=
-  snd (fst kr) = sort (all_froms (snd kr)) /\ q_unacc (snd kr) <> [].
+  snd (fst kr) = sfx_of (all_froms (snd kr)) /\ q_unacc (snd kr) <> [].
 Definition wf (s : state) : Prop := NoDup (map fst (s_recs s)) /\ Forall rec_ok (s_recs s).
 Definition covers (h : addr) (s : state) : Prop := forall d, rec_total (s_recs s) d <= s_bal s h d.
 
@@ -267,13 +286,13 @@ Proof.
   change (fully_accepted (with_declined qr (is_auto_decline s to froms))) with (fully_accepted qr) in Hr.
   rewrite Efa in Hr.
   change (all_froms (with_declined qr (is_auto_decline s to froms))) with (all_froms qr) in Hr.
-  assert (Hkey : sort (all_froms qr) = sort froms /\ forall d, amt (q_coins qr) d = old (mk_key to froms) (s_recs s) d + amt c d).
+  assert (Hkey : sfx_of (all_froms qr) = sfx_of froms /\ forall d, amt (q_coins qr) d = old (mk_key to froms) (s_recs s) d + amt c d).
   { unfold qr, old, get_record. destruct (rget (mk_key to froms) (s_recs s)) as [r|] eqn:Eg.
     - pose proof (wf_rget _ _ _ Hw Eg) as [Hk _]. cbn [fst snd mk_key] in Hk. split.
       + change (all_froms (with_coins r (q_coins r ++ c))) with (all_froms r). symmetry; exact Hk.
       + intros d. cbn [q_coins with_coins]. apply amt_app.
     - split.
-      + apply perm_sort_eq. unfold all_froms. cbn [q_unacc q_acc].
+      + apply perm_sfx_eq. unfold all_froms. cbn [q_unacc q_acc].
         eapply perm_trans; [apply Permutation_app_comm|].
         apply (partition_perm (fun f => is_auto_accept s to [f]) froms).
       + intros d. cbn [q_coins]. lia. }
@@ -298,14 +317,14 @@ Definition is_quarantined (s : state) (from to : addr) : bool :=
 Lemma is_optin_with_bal s b a : is_optin (with_bal s b) a = is_optin s a.
 Proof. reflexivity. Qed.
 
-(** what [credit] does, by case: direct, or quarantined into the (to, [from]) record *)
+(** what [credit] does, by case: direct, or quarantined into the (to, [trunc from]) record *)
 Lemma credit_spec s from to c s' :
   wf s -> credit h (Some s) (from, to, c) = Some s' ->
   wf s' /\ same_settings s s' /\
   ((is_quarantined s from to = false /\ s_recs s' = s_recs s /\ s_bal s' = bal_add (s_bal s) to c) \/
    (is_quarantined s from to = true /\ s_bal s' = bal_add (s_bal s) h c /\
-    exists r', s_recs s' = rset (to, [from]) r' (s_recs s) /\
-               forall d, amt (q_coins r') d = old (to, [from]) (s_recs s) d + amt c d)).
+    exists r', s_recs s' = rset (to, [trunc from]) r' (s_recs s) /\
+               forall d, amt (q_coins r') d = old (to, [trunc from]) (s_recs s) d + amt c d)).
 Proof.
   intros Hw. unfold credit, restrict, is_quarantined.
   assert (Haa : is_auto_accept s to [from] = is_accept (get_auto s to from))
@@ -415,36 +434,89 @@ Proof.
   apply existsb_exists. exists x. split; [exact Hx | apply addrs_eqb_eq; reflexivity].
 Qed.
 
-Lemma records_of_suffixes (recs : list (rkey * qrec)) to (l : list (list addr)) :
-  NoDup l ->
-  let rs := flat_map (fun sfx => match rget (to, sfx) recs with Some r => [((to, sfx), r)] | None => [] end) l in
-  NoDup (map fst rs) /\ forall k r, In (k, r) rs -> fst k = to /\ rget k recs = Some r.
+Lemma dedup_incl x (l : list (list addr)) : In x (dedup l) -> In x l.
 Proof.
-  induction l as [|x l IH]; intros Hn; cbn [flat_map]; [split; [constructor | intros ? ? []]|].
-  inversion Hn as [|? ? Hni Hnd]; subst. specialize (IH Hnd). cbn zeta in IH. destruct IH as [IH1 IH2].
-  destruct (rget (to, x) recs) as [r0|] eqn:E; cbn [app].
-  - split.
-    + cbn [map fst]. constructor; [|exact IH1]. intros Hi. apply in_map_iff in Hi.
-      destruct Hi as ([k r] & Hk & Hin). cbn [fst] in Hk. subst k.
-      apply in_flat_map in Hin. destruct Hin as (y & Hy & Hin).
-      destruct (rget (to, y) recs); [|destruct Hin]. destruct Hin as [Hin|[]].
-      injection Hin as -> _. contradiction.
-    + intros k r [Hi|Hi]; [injection Hi as <- <-; split; [reflexivity | exact E] | apply IH2, Hi].
-  - split; [exact IH1 | exact IH2].
+  induction l as [|y r IH]; cbn [dedup]; [tauto|].
+  destruct (smem y r); [intros H; right; apply IH, H|]. intros [H|H]; [left; exact H | right; apply IH, H].
 Qed.
 
+Lemma idx_get_multi i to f x : In x (idx_get i to f) -> is_multi x = true.
+Proof.
+  unfold idx_get. destruct (aget pair_eqb (to, f) i) as [l|]; [|intros []].
+  intros H. apply filter_In in H. apply H.
+Qed.
+
+Lemma NoDup_map_on {A B} (f : A -> B) (l : list A) :
+  NoDup l -> (forall x y, In x l -> In y l -> f x = f y -> x = y) -> NoDup (map f l).
+Proof.
+  induction 1 as [|a l Hni Hnd IH]; intros Hinj; cbn [map]; constructor.
+  - intros Hi. apply in_map_iff in Hi. destruct Hi as (y & Ey & Hy).
+    assert (y = a) by (apply Hinj; [right; exact Hy | left; reflexivity | exact Ey]). subst. contradiction.
+  - apply IH. intros x y Hx Hy. apply Hinj; right; assumption.
+Qed.
+
+Lemma key_sfx_single_or_multi x : (exists f, x = [f]) \/ key_sfx x = x.
+Proof. destruct x as [|a [|b l]]; [right; reflexivity | left; exists a; reflexivity | right; reflexivity]. Qed.
+
+(* after the cut the looked-up suffixes are still pairwise different, unless two different named
+   senders share their first 32 bytes *)
+Lemma get_suffixes_keys_nodup s to froms :
+  inj_named froms -> NoDup (map key_sfx (get_suffixes s to froms)).
+Proof.
+  intros Hinj. unfold get_suffixes. apply NoDup_map_on; [apply get_suffixes_nodup|].
+  assert (Hel : forall x, In x (dedup (flat_map (fun f => idx_get (s_idx s) to f ++ [[f]]) froms)) ->
+                          is_multi x = true \/ exists f, In f froms /\ x = [f]).
+  { intros x Hx. apply dedup_incl, in_flat_map in Hx. destruct Hx as (f & Hf & Hx).
+    apply in_app_or in Hx. destruct Hx as [Hx|[Hx|[]]].
+    - left. apply (idx_get_multi _ _ _ _ Hx).
+    - right. exists f. split; [exact Hf | symmetry; exact Hx]. }
+  intros x y Hx Hy E.
+  destruct (Hel x Hx) as [Mx|(a & Ha & ->)], (Hel y Hy) as [My|(b & Hb & ->)].
+  - rewrite !key_sfx_multi in E by assumption. exact E.
+  - rewrite key_sfx_multi in E by assumption. cbn [key_sfx] in E. subst x. discriminate.
+  - rewrite (key_sfx_multi y) in E by assumption. cbn [key_sfx] in E. subst y. discriminate.
+  - cbn [key_sfx] in E. injection E as E. rewrite (Hinj a b Ha Hb E). reflexivity.
+Qed.
+
+Lemma records_of_suffixes (recs : list (rkey * qrec)) to (l : list (list addr)) :
+  let rs := flat_map (fun sfx => match rget (to, key_sfx sfx) recs with Some r => [((to, key_sfx sfx), r)] | None => [] end) l in
+  (NoDup (map key_sfx l) -> NoDup (map fst rs)) /\ forall k r, In (k, r) rs -> fst k = to /\ rget k recs = Some r.
+Proof.
+  induction l as [|x l IH]; cbn [flat_map]; [split; [constructor | intros ? ? []]|].
+  cbn zeta in IH. destruct IH as [IH1 IH2].
+  destruct (rget (to, key_sfx x) recs) as [r0|] eqn:E; cbn [app].
+  - split.
+    + cbn [map fst]. intros Hn. inversion Hn as [|? ? Hni Hnd]; subst. constructor; [|apply IH1, Hnd].
+      intros Hi. apply in_map_iff in Hi.
+      destruct Hi as ([k r] & Hk & Hin). cbn [fst] in Hk. subst k.
+      apply in_flat_map in Hin. destruct Hin as (y & Hy & Hin).
+      destruct (rget (to, key_sfx y) recs); [|destruct Hin]. destruct Hin as [Hin|[]].
+      injection Hin as Ek _. apply Hni. rewrite <- Ek. apply in_map, Hy.
+    + intros k r [Hi|Hi]; [injection Hi as <- <-; split; [reflexivity | exact E] | apply IH2, Hi].
+  - split; [|exact IH2]. cbn [map]. intros Hn. inversion Hn; subst. apply IH1. assumption.
+Qed.
+
+Lemma get_records_mem s to froms :
+  forall k r, In (k, r) (get_records s to froms) -> fst k = to /\ rget k (s_recs s) = Some r.
+Proof. unfold get_records. apply (records_of_suffixes (s_recs s) to (get_suffixes s to froms)). Qed.
+
 Lemma get_records_spec s to froms :
+  inj_named froms ->
   NoDup (map fst (get_records s to froms)) /\
   forall k r, In (k, r) (get_records s to froms) -> fst k = to /\ rget k (s_recs s) = Some r.
-Proof. unfold get_records, get_suffixes. apply records_of_suffixes, get_suffixes_nodup. Qed.
+Proof.
+  intros Hinj. split; [|apply get_records_mem].
+  unfold get_records. apply (records_of_suffixes (s_recs s) to (get_suffixes s to froms)).
+  apply get_suffixes_keys_nodup, Hinj.
+Qed.
 
 Lemma accept_from_spec r froms r' : accept_from r froms = Some r' ->
   q_coins r' = q_coins r /\ q_unacc r' = filter (fun a => negb (mem a froms)) (q_unacc r) /\
-  sort (all_froms r') = sort (all_froms r).
+  sfx_of (all_froms r') = sfx_of (all_froms r).
 Proof.
   unfold accept_from. destruct (filter (fun a => mem a froms) (q_unacc r)) as [|x fnd] eqn:E; [discriminate|].
   rewrite <- E. intros [= <-]. cbn [q_coins q_unacc]. split; [reflexivity|]. split; [reflexivity|].
-  apply perm_sort_eq. unfold all_froms. cbn [q_unacc q_acc].
+  apply perm_sfx_eq. unfold all_froms. cbn [q_unacc q_acc].
   set (F := filter (fun a => mem a froms) (q_unacc r)). set (L := filter (fun a => negb (mem a froms)) (q_unacc r)).
   assert (Hp : Permutation (F ++ L) (q_unacc r)) by apply (partition_perm (fun a => mem a froms)).
   eapply perm_trans; [apply Permutation_app_comm|]. rewrite <- app_assoc.
@@ -589,12 +661,12 @@ Proof.
 Qed.
 
 Lemma accept_spec s to froms perm s' rel :
-  wf s -> accept h s to froms perm = Some (s', rel) -> acc_out to froms s s' rel.
+  wf s -> inj_named froms -> accept h s to froms perm = Some (s', rel) -> acc_out to froms s s' rel.
 Proof.
-  intros Hw. unfold accept. destruct froms as [|f0 fr] eqn:Ef; [discriminate|]. rewrite <- Ef.
+  intros Hw Hinj. unfold accept. destruct froms as [|f0 fr] eqn:Ef; [discriminate|]. rewrite <- Ef in *.
   destruct (fold_left _ _ _) as [[s1 rel1]|] eqn:Efold; [|discriminate].
   intros [= <- <-].
-  destruct (get_records_spec s to froms) as [Hnd Hrs].
+  destruct (get_records_spec s to froms Hinj) as [Hnd Hrs].
   assert (Hrel : acc_rel h to froms s s1 rel1).
   { eapply accept_fold; [exact Hnd| |apply acc_rel_init, Hw|exact Efold].
     intros k r Hin. destruct (Hrs k r Hin) as [A B]. auto. }
@@ -614,16 +686,16 @@ Lemma fold_decline_none to froms l : fold_left (decline_one to froms) l None = N
 Proof. induction l as [|x l IH]; cbn [fold_left]; [reflexivity | exact IH]. Qed.
 
 Lemma decline_from_spec r froms r' : decline_from r froms = Some r' ->
-  q_coins r' = q_coins r /\ (q_unacc r <> [] -> q_unacc r' <> []) /\ sort (all_froms r') = sort (all_froms r).
+  q_coins r' = q_coins r /\ (q_unacc r <> [] -> q_unacc r' <> []) /\ sfx_of (all_froms r') = sfx_of (all_froms r).
 Proof.
   unfold decline_from.
   set (B := filter (fun a => mem a froms) (q_acc r)). set (L := filter (fun a => negb (mem a froms)) (q_acc r)).
   assert (Hp : Permutation (B ++ L) (q_acc r)) by apply (partition_perm (fun a => mem a froms)).
   assert (G : forall r', r' = {| q_unacc := q_unacc r ++ B; q_acc := L; q_coins := q_coins r; q_declined := true |} ->
-     q_coins r' = q_coins r /\ (q_unacc r <> [] -> q_unacc r' <> []) /\ sort (all_froms r') = sort (all_froms r)).
+     q_coins r' = q_coins r /\ (q_unacc r <> [] -> q_unacc r' <> []) /\ sfx_of (all_froms r') = sfx_of (all_froms r)).
   { intros ? ->. cbn [q_coins q_unacc]. split; [reflexivity|]. split.
     - intros Hn Hc. apply app_eq_nil in Hc. apply Hn, Hc.
-    - apply perm_sort_eq. unfold all_froms. cbn [q_unacc q_acc]. rewrite <- app_assoc.
+    - apply perm_sfx_eq. unfold all_froms. cbn [q_unacc q_acc]. rewrite <- app_assoc.
       apply Permutation_app_head, Hp. }
   destruct B; destruct (q_declined r); try discriminate; intros [= <-]; apply G; reflexivity.
 Qed.
@@ -673,7 +745,7 @@ Proof.
   destruct (fold_left _ _ _) as [s1|] eqn:Efold; [|discriminate]. intros [= <-].
   assert (H1 : dec_rel s s1).
   { eapply (decline_fold to froms s Hw); [| |exact Efold].
-    - intros k r Hin. apply (proj2 (get_records_spec s to froms) k r Hin).
+    - intros k r Hin. apply (get_records_mem s to froms k r Hin).
     - split; [exact Hw|]. split; [reflexivity|]. split; [reflexivity|]. split; reflexivity. }
   set (sf := if perm then _ else s1).
   assert (Hk : s_recs sf = s_recs s1 /\ s_bal sf = s_bal s1 /\ s_optin sf = s_optin s1).
@@ -701,8 +773,17 @@ Definition signer_ok (o : op) : Prop :=
   | OOptIn a | OOptOut a => a <> h
   | OSend from _ _ | OMulti from _ _ => from <> h
   | OMultiIn ins _ => Forall (fun i => fst i <> h) ins
-  | OAccept to _ _ | ODecline to _ _ | OUpdate to _ => to <> h
+  | OAccept to froms _ | ODecline to froms _ => to <> h /\ inj_named froms
+  | OUpdate to _ => to <> h
   end.
+
+(* no Accept / Decline names two different senders that share their first 32 bytes (such senders
+   share one record key: known finding, see C07_prefix_collision_*_refuted) *)
+Definition named_ok (o : op) : Prop :=
+  match o with OAccept _ froms _ | ODecline _ froms _ => inj_named froms | _ => True end.
+
+Lemma signer_named o : signer_ok o -> named_ok o.
+Proof. destruct o; cbn [signer_ok named_ok]; try tauto. Qed.
 
 (* no transfer names the holder itself as the receiver *)
 Definition no_direct (o : op) : Prop :=
@@ -758,7 +839,8 @@ Proof.
     apply Forall_forall. intros x _. exact Hd.
   - destruct (accept h s to froms perm) as [[s1 rel]|] eqn:E; intros [= <- _];
       [|split; [exact Hw|]; split; [lia | reflexivity]].
-    destruct (accept_spec _ _ _ _ _ _ Hw E) as (A & _ & B & C & _).
+    destruct Hs as [Hs Hinj].
+    destruct (accept_spec _ _ _ _ _ _ Hw Hinj E) as (A & _ & B & C & _).
     split; [exact A|]. unfold slack. rewrite B, C. unfold bal_add, bal_sub. rewrite Pos.eqb_refl.
     destruct (Pos.eqb_spec h to); [congruence|]. split; [lia | intros _; lia].
   - unfold lift. destruct (decline s to froms perm) as [s1|] eqn:E; intros [= <- _];
@@ -820,8 +902,8 @@ Lemma send_spec s from to c s' :
    forall a d, s_bal s' a d = bal_add (bal_sub (s_bal s) from c) to c a d) \/
   (is_quarantined h s from to = true /\
    (forall a d, s_bal s' a d = bal_add (bal_sub (s_bal s) from c) h c a d) /\
-   exists r', s_recs s' = rset (to, [from]) r' (s_recs s) /\
-              forall d, amt (q_coins r') d = old (to, [from]) (s_recs s) d + amt c d).
+   exists r', s_recs s' = rset (to, [trunc from]) r' (s_recs s) /\
+              forall d, amt (q_coins r') d = old (to, [trunc from]) (s_recs s) d + amt c d).
 Proof.
   intros Hw. unfold send. destruct (coins_valid c); [|discriminate].
   destruct (debit (Some s) (from, c)) as [s1|] eqn:Ed; [|discriminate].
@@ -841,9 +923,9 @@ Lemma not_credited_until_accept : forall s0 ops from to c s' res,
   (forall d, s_bal s' h d = s_bal s h d + amt c d) /\
   (forall d, s_bal s' from d = s_bal s from d - amt c d) /\
   (forall d, rec_total (s_recs s') d = rec_total (s_recs s) d + amt c d) /\
-  (exists r', rget (to, [from]) (s_recs s') = Some r' /\
-              forall d, amt (q_coins r') d = old (to, [from]) (s_recs s) d + amt c d) /\
-  (forall k, k <> (to, [from]) -> rget k (s_recs s') = rget k (s_recs s)).
+  (exists r', rget (to, [trunc from]) (s_recs s') = Some r' /\
+              forall d, amt (q_coins r') d = old (to, [trunc from]) (s_recs s) d + amt c d) /\
+  (forall k, k <> (to, [trunc from]) -> rget k (s_recs s') = rget k (s_recs s)).
 Proof.
   intros s0 ops from to c s' res Hw0 Hs. cbn zeta. set (s := run h s0 ops).
   assert (Hw : wf s) by apply (run_slack ops s0 1%positive Hw0 Hs).
@@ -894,7 +976,7 @@ Qed.
 
 (** C07_paid_once_in_full *)
 Lemma paid_once_in_full : forall s0 ops to froms perm s' rel,
-  wf s0 -> Forall (signer_ok h) ops -> to <> h ->
+  wf s0 -> Forall (signer_ok h) ops -> to <> h -> inj_named froms ->
   let s := run h s0 ops in
   step h s (OAccept to froms perm) = (s', Some rel) ->
   (* every record is either kept with exactly its coins and still has an unaccepted sender, or
@@ -909,10 +991,10 @@ Lemma paid_once_in_full : forall s0 ops to froms perm s' rel,
   (forall d, s_bal s' h d = s_bal s h d - amt rel d) /\
   (forall a d, a <> to -> a <> h -> s_bal s' a d = s_bal s a d).
 Proof.
-  intros s0 ops to froms perm s' rel Hw0 Hs Hth. cbn zeta. set (s := run h s0 ops).
+  intros s0 ops to froms perm s' rel Hw0 Hs Hth Hinj. cbn zeta. set (s := run h s0 ops).
   assert (Hw : wf s) by apply (run_slack ops s0 1%positive Hw0 Hs).
   cbn [step]. destruct (accept h s to froms perm) as [[s1 rel1]|] eqn:E; [|discriminate].
-  intros [= <- <-]. destruct (accept_spec h _ _ _ _ _ _ Hw E) as (_ & _ & Hb & Ht & Hk).
+  intros [= <- <-]. destruct (accept_spec h _ _ _ _ _ _ Hw Hinj E) as (_ & _ & Hb & Ht & Hk).
   split; [|split; [|split; [|split; [|split]]]].
   - intros k r Hg. specialize (Hk k). rewrite Hg in Hk.
     destruct (rget k (s_recs s1)) as [r'|]; [left; exists r'; split; [reflexivity | exact Hk] | right; split; [reflexivity | exact Hk]].
